@@ -184,6 +184,8 @@ def check_all(ctx, cls):
     if okt:
         k0, k1 = valkey(tv.items[0]), valkey(tv.items[1])
         okt = ".index[" in k0 and "[0]/[1]" in k0 and ".index[" in k1 and "[-1]/[1]" in k1 and "Add" in k1 and "Add" not in k0
+        # the exclusive end is the last position plus exactly one
+        okt = okt and k1.count("Add(") == 1 and (",[1]/[1])" in k1 or "([1]/[1]," in k1)
     ctx.check(okt, rule_c, "interval", app_e.loc(), "a flagged group is reported as (its first position, its last position + 1)", found=repr(tv)[:200], expected="(int(segment.index[0]), int(segment.index[-1] + 1))")
     ctx.check(bool(app_e.loops), rule_c, "per-group", app_e.loc(), "one interval per group of the grouping (inside the group loop)", found=f"{len(app_e.loops)} enclosing loops")
     # the grouped frame: built by the library from the data column and the clone's labels
